@@ -37,19 +37,19 @@ WellFormed(doc) ==
 
 PropKey(i) == "p" \o ToString(i)
 
-\* structural kind of the property an edge becomes
+\* structural kind of the property an edge becomes (a string the observation side normalises to as well)
 KindOf(e) ==
-  CASE e.kind = "ref"       -> <<"ref", e.to>>
-    [] e.kind = "arr"       -> <<"list", "ref", e.to>>
-    [] e.kind = "inline"    -> <<"inlineobj", e.to>>
-    [] e.kind = "arrInline" -> <<"list", "inlineobj", e.to>>
-    [] e.kind = "map"       -> <<"map", "ref", e.to>>
-    [] e.kind = "oneOf"     -> <<"union", e.to>>
-    [] e.kind = "anyOf"     -> <<"union", e.to>>
+  CASE e.kind = "ref"       -> "ref:" \o e.to
+    [] e.kind = "arr"       -> "list:ref:" \o e.to
+    [] e.kind = "inline"    -> "inlineobj:ref:" \o e.to
+    [] e.kind = "arrInline" -> "list:inlineobj:ref:" \o e.to
+    [] e.kind = "map"       -> "map:ref:" \o e.to
+    [] e.kind = "oneOf"     -> "union:ref:" \o e.to \o "|str"
+    [] e.kind = "anyOf"     -> "union:ref:" \o e.to \o "|str"
 
 \* own declared fields of n: "id" plus one per non-allOf edge
 OwnFields(doc, n) ==
-  {[key |-> "id", required |-> TRUE, kind |-> <<"str">>]} \cup
+  {[key |-> "id", required |-> TRUE, kind |-> "str"]} \cup
   {[key |-> PropKey(i), required |-> doc.edges[i].req, kind |-> KindOf(doc.edges[i])] :
       i \in {j \in 1..Len(doc.edges) : doc.edges[j].from = n /\ doc.edges[j].kind \notin {"allOf", "alias"}}}
 
